@@ -220,34 +220,37 @@ def _h(v):
 
 
 class ExactAggInplace:
-  """Mutates the state in place (like the library's MergeableMetric adapters)."""
+  """Mutates a container nested inside its state in place (like the library's
+  MergeableMetric adapters around a Counter / ndarray / reservoir)."""
 
   def create_state(self):
-    return [0, 0, 0]
+    return {'acc': [0, 0, 0]}
 
   def update_state(self, state, x):
-    state[0] += int(x)
-    state[1] += 1
-    state[2] ^= _h(x)
+    acc = state['acc']
+    acc[0] += int(x)
+    acc[1] += 1
+    acc[2] ^= _h(x)
     return state
 
   def merge_states(self, states):
     out = [0, 0, 0]
     for st in states:
-      out[0] += st[0]
-      out[1] += st[1]
-      out[2] ^= st[2]
-    return out
+      out[0] += st['acc'][0]
+      out[1] += st['acc'][1]
+      out[2] ^= st['acc'][2]
+    return {'acc': out}
 
   def get_result(self, state):
-    return list(state)
+    return list(state['acc'])
 
 
 class ExactAggFunctional(ExactAggInplace):
   """Returns a fresh state object on every update."""
 
   def update_state(self, state, x):
-    return [state[0] + int(x), state[1] + 1, state[2] ^ _h(x)]
+    a = state['acc']
+    return {'acc': [a[0] + int(x), a[1] + 1, a[2] ^ _h(x)]}
 
 
 def agg_of(values):
@@ -298,31 +301,32 @@ class BatchAggInplace:
   """Exact aggregator over a column (batch of rows); mutates its state."""
 
   def create_state(self):
-    return [0, 0, 0]
+    return {'acc': [0, 0, 0]}
 
   def update_state(self, state, xs):
+    acc = state['acc']
     for x in xs:
-      state[0] += int(x)
-      state[1] += 1
-      state[2] ^= _h(x)
+      acc[0] += int(x)
+      acc[1] += 1
+      acc[2] ^= _h(x)
     return state
 
   def merge_states(self, states):
     out = [0, 0, 0]
     for st in states:
-      out[0] += st[0]
-      out[1] += st[1]
-      out[2] ^= st[2]
-    return out
+      out[0] += st['acc'][0]
+      out[1] += st['acc'][1]
+      out[2] ^= st['acc'][2]
+    return {'acc': out}
 
   def get_result(self, state):
-    return list(state)
+    return list(state['acc'])
 
 
 class BatchAggFunctional(BatchAggInplace):
 
   def update_state(self, state, xs):
-    out = list(state)
+    out = {'acc': list(state['acc'])}
     return BatchAggInplace.update_state(self, out, xs)
 
 
